@@ -67,13 +67,20 @@ func (o op) String() string {
 type st struct {
 	M          *qmodel.Model
 	Remembered map[string]int64 // "<handle>|<ack or nack>" -> instant at which the duplicate answer stops being allowed
+	// Presented: "<handle>|<ack or nack>" -> last instant at which that operation was presented at all (whatever the
+	// answer). Part of the de-duplication key only: the pull server's idempotency cache is private to a closure and
+	// can depend on nothing but this, so states that differ in it are kept apart even if a correct cache would not.
+	Presented map[string]int64
 }
 
 func (s st) clone() st {
-	c := st{M: s.M.Clone(), Remembered: map[string]int64{}}
+	c := st{M: s.M.Clone(), Remembered: map[string]int64{}, Presented: map[string]int64{}}
 	c.M.Edges = map[string]int{}
 	for k, v := range s.Remembered {
 		c.Remembered[k] = v
+	}
+	for k, v := range s.Presented {
+		c.Presented[k] = v
 	}
 	return c
 }
@@ -291,6 +298,17 @@ func unchanged(pre *qmodel.Model, post []qmodel.Msg) string {
 func judge(pre st, o op, h httpObs, post []qmodel.Msg) (st, string) {
 	s := pre.clone()
 	now := s.M.Now
+	if cls := opClass(o.Kind); cls != "" {
+		// presentations of the current lease are covered by Remembered (success) or change the store state (expiry)
+		if o.Lease != "" && !currentLease(pre.M, o.Lease) {
+			s.Presented[o.Lease+"|"+cls] = now
+		}
+		for _, l := range o.Leases {
+			if !currentLease(pre.M, l) {
+				s.Presented[l+"|"+cls] = now
+			}
+		}
+	}
 	toModel := func() qmodel.Op {
 		switch o.Kind {
 		case "deq":
@@ -428,7 +446,7 @@ func TestCheck(t *testing.T) {
 	backends := []string{"memory", "sqlite"}
 	depth := map[string]int{"memory": runner.Pick(r, 5, 7), "sqlite": runner.Pick(r, 4, 6)}
 	budget := runner.Pick(r, 70*time.Second, 12*time.Minute)
-	shards := 8
+	shards := 12
 	njobs := len(backends) * shards
 	if ji, ok := runner.Job(); ok {
 		backend := backends[ji/shards]
@@ -437,7 +455,7 @@ func TestCheck(t *testing.T) {
 			Name: "c04-" + backend, Workers: 1, MaxDepth: depth[backend], MaxTrans: runner.Pick(r, int64(2_000_000), int64(30_000_000)),
 			Deadline: time.Now().Add(budget), RootShard: ji % shards, RootShards: shards,
 			Init: func() st {
-				return st{Remembered: map[string]int64{}}
+				return st{Remembered: map[string]int64{}, Presented: map[string]int64{}}
 			}, InitKey: "init", OpName: func(o op) string { return o.Kind },
 			Enabled: func(s st, hist []op) []op {
 				if s.M == nil {
@@ -493,7 +511,14 @@ func TestCheck(t *testing.T) {
 						hk = append(hk, k)
 					}
 					sort.Strings(hk)
-					kb.WriteString(strings.Join(rk, ",") + "|" + strings.Join(hk, ","))
+					pk := make([]string, 0, len(next.Presented))
+					for k, v := range next.Presented {
+						if v+int64(idemTTL) > next.M.Now {
+							pk = append(pk, fmt.Sprintf("%s@%d", k, v))
+						}
+					}
+					sort.Strings(pk)
+					kb.WriteString(strings.Join(rk, ",") + "|" + strings.Join(hk, ",") + "|" + strings.Join(pk, ","))
 					res.Key = kb.String()
 				})
 				return res
